@@ -3,7 +3,7 @@
    theorems apply to every abstract state the checker passes through while replaying an
    implementation trace. *)
 From Coq Require Import List Arith Bool NArith Lia.
-From ZV Require Import RaftAbs.ListFacts RaftAbs.Model RaftAbs.Inv RaftAbs.Acceptor.
+From ZV Require Import RaftAbs.ListFacts RaftAbs.Model RaftAbs.Inv RaftAbs.Pres1 RaftAbs.Inv1 RaftAbs.Inv2 RaftAbs.Safety RaftAbs.Acceptor.
 Import ListNotations.
 
 Lemma role_eqb_eq a b : role_eqb a b = true <-> a = b.
@@ -183,3 +183,68 @@ Qed.
 Theorem accepted_reachable cf log0 ls s :
   run (init cf log0) ls = Some s -> reachable cf log0 s.
 Proof. apply run_sound. Qed.
+
+(* ---------- the per-step conditions that make the overlap hypothesis unnecessary ---------- *)
+
+Lemma leader_of_None t l : leader_of t l = None -> forall c el q, ~ In (t, c, el, q) l.
+Proof.
+  induction l as [|[[[t' c'] el'] q'] l IH]; simpl; intros H c el q; [tauto|].
+  destruct (Nat.eqb_spec t' t); [discriminate|]. intros [E|Hin]; [inversion E; congruence | eapply IH; eauto].
+Qed.
+
+Ltac guards H :=
+  repeat match type of H with
+  | (if ?c then _ else _) = Some _ => let E := fresh "E" in destruct c eqn:E; [|discriminate]
+  | match ?c with Some _ => _ | None => _ end = Some _ => let E := fresh "F" in destruct c eqn:E; [|discriminate]
+  end.
+
+Theorem apply_label_noclash s l s' : apply_label s l = Some s' -> NoClash s s'.
+Proof.
+  intros H c Hc Hl. destruct l; simpl in H; guards H; inversion H; subst; clear H; simpl in Hl;
+    unfold upd in Hl;
+    try (match type of Hl with context [Nat.eqb ?a ?b] => destruct (Nat.eqb_spec a b); subst; simpl in Hl end);
+    try congruence; boolh; try congruence.
+  (* BecomeLeader *)
+  intros [c' [el [q Hin]]].
+  match goal with H : match term_leader s ?t with _ => _ end = true |- _ =>
+    destruct (term_leader s t) eqn:T; [discriminate|]; eapply leader_of_None; eauto end.
+Qed.
+
+Theorem apply_label_commitok s l s' : apply_label s l = Some s' -> CommitOK s s'.
+Proof.
+  intros H c Hl Hl' Hlt. destruct l; simpl in H; guards H; inversion H; subst; clear H; simpl in *;
+    unfold upd in *;
+    try (match goal with |- context [Nat.eqb ?a ?b] => destruct (Nat.eqb_spec a b); subst; simpl in * end);
+    try (match type of Hlt with context [Nat.eqb ?a ?b] => destruct (Nat.eqb_spec a b); subst; simpl in * end);
+    try lia; try congruence; boolh.
+  - (* AdvanceCommit *)
+    match goal with H : commit_comparable _ _ _ = true |- _ =>
+      unfold commit_comparable in H; apply orb_true_iff in H; destruct H as [H|H]; apply prefixb_prefix in H; auto end.
+  - (* LearnCommit *) right. now apply prefixb_prefix.
+Qed.
+
+Lemma steps_ok_trans a b c : steps_ok a b -> steps_ok b c -> steps_ok a c.
+Proof.
+  intros H1 H2. induction H2 as [|x y z Hxy IH Hyz NC CO]; auto.
+  econstructor; [apply IH; auto | exact Hyz | exact NC | exact CO].
+Qed.
+
+Theorem run_ok ls : forall s s', run s ls = Some s' -> steps_ok s s'.
+Proof.
+  induction ls as [|l ls IH]; simpl; intros s s' H.
+  - inversion H; subst. constructor.
+  - destruct (apply_label s l) as [s1|] eqn:E; [|discriminate].
+    apply steps_ok_trans with s1; [|apply IH; auto].
+    econstructor; [constructor | eapply apply_label_sound; eauto | eapply apply_label_noclash; eauto
+                  | eapply apply_label_commitok; eauto].
+Qed.
+
+(* every state the checker reaches from a well-formed initial state satisfies all invariants:
+   no hypothesis on the configurations *)
+Theorem accepted_trace_inv cf log0 ls s :
+  init_okb cf log0 = true -> run (init cf log0) ls = Some s -> inv1 s /\ inv2 s.
+Proof.
+  intros H1 H2. eapply steps_ok_inv; [| | eapply run_ok; eauto].
+  - apply init_inv1. now apply init_okb_ok.
+  - apply init_inv2. now apply init_okb_ok.
+Qed.
